@@ -109,7 +109,8 @@ type dir11 struct {
 	// directives outside the Compose model (oracle-only trees)
 	Namespace    string            `json:"namespace,omitempty"`
 	CommonLabels map[string]string `json:"common_labels,omitempty"`
-	Labels       map[string]string `json:"labels,omitempty"` // labels: [{pairs: ...}] (no selectors)
+	Labels       map[string]string `json:"labels,omitempty"`  // labels: [{pairs: ...}] (no selectors)
+	Labels2      map[string]string `json:"labels2,omitempty"` // a second entry of the labels: list
 	Annotations  map[string]string `json:"annotations,omitempty"`
 	CMGens       []cmgen11         `json:"cmgens,omitempty"`
 	Patches      []patch11         `json:"patches,omitempty"`
@@ -122,11 +123,11 @@ type dir11 struct {
 // Kustomization.CheckEmpty rejects it once those move to a wrapper.
 func (d *dir11) emptyWithoutTopOnly() bool {
 	return len(d.Ents) == 0 && d.Prefix == "" && d.Suffix == "" && d.Namespace == "" && len(d.CommonLabels) == 0 &&
-		len(d.Labels) == 0 && len(d.Annotations) == 0 && len(d.CMGens) == 0 && len(d.Patches) == 0 && len(d.Images) == 0
+		len(d.Labels) == 0 && len(d.Labels2) == 0 && len(d.Annotations) == 0 && len(d.CMGens) == 0 && len(d.Patches) == 0 && len(d.Images) == 0
 }
 
 func (d *dir11) rich() bool {
-	if d.Namespace != "" || len(d.CommonLabels) > 0 || len(d.Labels) > 0 || len(d.Annotations) > 0 ||
+	if d.Namespace != "" || len(d.CommonLabels) > 0 || len(d.Labels) > 0 || len(d.Labels2) > 0 || len(d.Annotations) > 0 ||
 		len(d.CMGens) > 0 || len(d.Patches) > 0 || len(d.Images) > 0 {
 		return true
 	}
@@ -249,9 +250,14 @@ func (d *dir11) kustomization() string {
 		b.WriteString("commonLabels:\n")
 		yamlMap(&b, "  ", d.CommonLabels)
 	}
-	if len(d.Labels) > 0 {
-		b.WriteString("labels:\n- pairs:\n")
-		yamlMap(&b, "    ", d.Labels)
+	if len(d.Labels) > 0 || len(d.Labels2) > 0 {
+		b.WriteString("labels:\n")
+		for _, m := range []map[string]string{d.Labels, d.Labels2} {
+			if len(m) > 0 {
+				b.WriteString("- pairs:\n")
+				yamlMap(&b, "    ", m)
+			}
+		}
 	}
 	if len(d.Annotations) > 0 {
 		b.WriteString("commonAnnotations:\n")
@@ -402,6 +408,37 @@ func (d *dir11) coq() string {
 		}
 	}
 	return fmt.Sprintf("(YDir [%s] %s %s)", strings.Join(parts, "; "), coqStr(d.Prefix), coqStr(d.Suffix))
+}
+
+func coqLabels(m map[string]string) string {
+	parts := []string{}
+	for _, k := range sortedMapKeys(m) {
+		parts = append(parts, fmt.Sprintf("(%s, %s)", coqStr(k), coqStr(m[k])))
+	}
+	return "[" + strings.Join(parts, "; ") + "]"
+}
+
+// coqL prints the tree for the label-layering model (Res/LabelNest.v): ids, own labels, label directives.
+func (d *dir11) coqL() string {
+	parts := make([]string, len(d.Ents))
+	for i, e := range d.Ents {
+		if e.File != nil {
+			docs := make([]string, len(e.File.Docs))
+			for j, dc := range e.File.Docs {
+				docs[j] = fmt.Sprintf("(%s, %s)", dc.coq(), coqLabels(dc.Labels))
+			}
+			parts[i] = "(YLFile [" + strings.Join(docs, "; ") + "])"
+		} else {
+			parts[i] = e.Dir.coqL()
+		}
+	}
+	entries := []string{}
+	for _, m := range []map[string]string{d.Labels, d.Labels2} {
+		if len(m) > 0 {
+			entries = append(entries, coqLabels(m))
+		}
+	}
+	return fmt.Sprintf("(YLDir [%s] [%s] %s)", strings.Join(parts, "; "), strings.Join(entries, "; "), coqLabels(d.CommonLabels))
 }
 
 func coqOrder(custom bool, first, last []string) string {
@@ -580,6 +617,9 @@ func (g *gen11) dir(depth int, top bool) *dir11 {
 		if g.rng.Chance(30) {
 			d.Labels = map[string]string{g.rng.Pick([]string{"app", "tier", "env", "team"}): g.rng.Pick([]string{"m1", "m2"})}
 		}
+		if len(d.Labels) > 0 && g.rng.Chance(40) {
+			d.Labels2 = map[string]string{g.rng.Pick([]string{"app", "tier", "env", "team"}): g.rng.Pick([]string{"z1", "z2"})}
+		}
 		if g.rng.Chance(20) {
 			d.Annotations = map[string]string{g.rng.Pick([]string{"note", "owner"}): g.rng.Pick([]string{"n1", "n2"})}
 		}
@@ -632,6 +672,77 @@ func genTree11(rng *Rng, rich bool, depth int) *dir11 {
 	d := g.dir(depth, true)
 	d.Sort = g.sortOpt(true)
 	return d
+}
+
+// genLabelTree11: trees inside the scope of Res/LabelNest.v - unique ids, no renaming, no sortOptions;
+// documents with own labels, up to two `labels:` entries and commonLabels per layer, overlapping keys.
+func genLabelTree11(rng *Rng, depth int) *dir11 {
+	g := &gen11{rng: rng, unique: true, used: map[string]bool{}}
+	keys := []string{"app", "tier", "env", "team"}
+	var dir func(depth int, top bool) *dir11
+	dir = func(depth int, top bool) *dir11 {
+		g.nDir++
+		d := &dir11{Name: fmt.Sprintf("d%d", g.nDir)}
+		if !top && rng.Chance(40) {
+			d.Sibling = true
+		}
+		n := 1 + rng.Intn(3)
+		for i := 0; i < n; i++ {
+			if depth > 0 && rng.Chance(50) {
+				d.Ents = append(d.Ents, ent11{Dir: dir(depth-1, false)})
+			} else {
+				f := g.file()
+				for j := range f.Docs {
+					f.Docs[j].NS = ""
+					f.Docs[j].Name = fmt.Sprintf("%s%d", f.Docs[j].Name, g.nFile*10+j) // unique ids: the build succeeds
+					if rng.Chance(50) {
+						f.Docs[j].Labels = map[string]string{rng.Pick(keys): rng.Pick([]string{"o1", "o2"})}
+						if rng.Chance(30) {
+							f.Docs[j].Labels[rng.Pick(keys)] = "o3"
+						}
+					}
+				}
+				d.Ents = append(d.Ents, ent11{File: f})
+			}
+		}
+		if rng.Chance(60) {
+			d.Labels = map[string]string{rng.Pick(keys): rng.Pick([]string{"m1", "m2"})}
+			if rng.Chance(40) {
+				d.Labels[rng.Pick(keys)] = "m3"
+			}
+			if rng.Chance(50) {
+				d.Labels2 = map[string]string{rng.Pick(keys): rng.Pick([]string{"z1", "z2"})}
+			}
+		}
+		if rng.Chance(50) {
+			d.CommonLabels = map[string]string{rng.Pick(keys): rng.Pick([]string{"l1", "l2"})}
+		}
+		return d
+	}
+	return dir(depth, true)
+}
+
+func labelCase11(r *Run, t *dir11, root string) {
+	o := build11(t, root)
+	r.Count("labels_class", o.Cls)
+	if o.Cls != ClsOk {
+		// the label model describes successful builds only (errors are CBuild's business)
+		r.Meta.Skipped++
+		return
+	}
+	out := make([]string, len(o.Docs))
+	overridden := false
+	for i, d := range o.Docs {
+		out[i] = fmt.Sprintf("(%s, %s)", d.coq(), coqLabels(o.Res[i].Labels))
+	}
+	for _, d := range t.dirs(nil)[1:] {
+		if len(d.Labels) > 0 || len(d.CommonLabels) > 0 {
+			overridden = true
+		}
+	}
+	r.Count("labels_layers", fmt.Sprint(len(t.dirs(nil))))
+	term := fmt.Sprintf("(CLabels %s [%s])", t.coqL(), strings.Join(out, "; "))
+	r.AddCase(term, treeCase11{Kind: "labeltree", Tree: t, Note: "built at " + root}, overridden)
 }
 
 // ---- adversarial ids for the Less correspondence
@@ -887,9 +998,9 @@ func (d *dir11) expectations(pfx, sfx string, nsDirective bool, outer []map[stri
 	s := d.Suffix + sfx
 	nsDirective = nsDirective || d.Namespace != ""
 	// label layers are applied from the END of this list: innermost directory first and, within one directory,
-	// the `labels` entries before commonLabels (the order of the LabelTransformer configurator)
+	// the `labels` entries in order before commonLabels (the order of the LabelTransformer configurator)
 	layers := append([]map[string]string{}, outer...)
-	layers = append(layers, d.CommonLabels, d.Labels)
+	layers = append(layers, d.CommonLabels, d.Labels2, d.Labels)
 	for _, e := range d.Ents {
 		if e.Dir != nil {
 			e.Dir.expectations(p, s, nsDirective, layers, acc)
@@ -1231,6 +1342,10 @@ func runC11(r *Run, rng *Rng, tier string) error {
 	// the two kinds of model cases are interleaved so that the Coq shards cost about the same
 	perBuild := nLess / nModel
 	for i := 0; i < nModel; i++ {
+		if i%3 == 0 {
+			g := rng.Fork()
+			labelCase11(r, genLabelTree11(g, 1+g.Intn(2)), roots11[g.Intn(len(roots11))])
+		}
 		for j := 0; j < perBuild; j++ {
 			lessCase11(r, genLess11(rng.Fork()))
 		}
@@ -1261,6 +1376,10 @@ func runCorpus11(r *Run, rng *Rng, c treeCase11) {
 	case "less":
 		if c.Less != nil {
 			lessCase11(r, *c.Less)
+		}
+	case "labeltree":
+		if c.Tree != nil {
+			labelCase11(r, c.Tree, root11)
 		}
 	case "tree":
 		if c.Tree != nil {
@@ -1303,7 +1422,7 @@ func replayC11(p string) (bool, string, error) {
 		res, cls := implLess(*rp.Case.Less)
 		detail = fmt.Sprintf("Less(a,b)=%v class=%s", res, cls)
 		lessCase11(r, *rp.Case.Less)
-	case "tree":
+	case "tree", "labeltree":
 		if rp.Case.Tree == nil {
 			return false, "", fmt.Errorf("no tree")
 		}
